@@ -91,3 +91,31 @@ func TestFinding69_RawTextAndNoscriptAreStable(t *testing.T) {
 		}
 	}
 }
+
+// rows 97-99 — C19.R18: raw text and leading newlines inside <pre>; <html as a tag-name prefix
+func TestFinding97to99_InsidePreAndHTMLPrefix(t *testing.T) {
+	for _, src := range []string{
+		"<pre>x<script>if (a<b) {}</script></pre>",
+		"<pre>a<style>b > c &amp; d</style></pre>",
+		"<pre><textarea>\n\nfoo</textarea></pre>",
+	} {
+		o1, o2 := formatTwice(t, src)
+		if o1 != o2 {
+			t.Errorf("%q: not idempotent\n 1: %q\n 2: %q", src, o1, o2)
+		}
+		if strings.Contains(o1, "&lt;") || strings.Contains(o1, "&amp;amp;") {
+			t.Errorf("%q: raw text inside <pre> was escaped: %q", src, o1)
+		}
+	}
+	if o1, _ := formatTwice(t, "<pre><textarea>\n\nfoo</textarea></pre>"); !strings.Contains(o1, "<textarea>\n\nfoo") {
+		t.Errorf("nested textarea lost a leading newline: %q", o1)
+	}
+	for _, src := range []string{"<html-viewer>x</html-viewer>", `<htmlx-el a="1">x</htmlx-el>`} {
+		if o1, _ := formatTwice(t, src); strings.Contains(o1, "<body>") || strings.Contains(o1, "<head>") {
+			t.Errorf("%q was taken for a document: %q", src, o1)
+		}
+	}
+	if o1, _ := formatTwice(t, "<html lang=en><body><p>x</p></body></html>"); !strings.Contains(o1, `<html lang="en">`) {
+		t.Errorf("a document is still a document: %q", o1)
+	}
+}
